@@ -48,6 +48,8 @@ type rawStore struct {
 	callsMu *sync.Mutex
 
 	onRecv func() // called (outside the lock) after a blob was stored
+	stall  *stallCtl
+	failAt int    // transient fault armed: the failAt-th next ReceiveBlob fails (0 = none)
 
 	// sequential-fetch mode (start-up scan): Fetch k returns only after the reader of Fetch k-1
 	// was closed, in the order of seq.
@@ -76,13 +78,34 @@ func (s *rawStore) Tok(name string) string {
 	return s.tok(name)
 }
 
+// stallCtl makes one ReceiveBlob hang before it starts reading its source (a stuck link that does not
+// look at the context).
+type stallCtl struct{ entered, release, done chan struct{} }
+
 func (s *rawStore) ReceiveBlob(ctx context.Context, br blob.Ref, src io.Reader) (blob.SizedRef, error) {
+	s.mu.Lock()
+	st := s.stall
+	s.stall = nil
+	s.mu.Unlock()
+	if st != nil {
+		close(st.entered)
+		<-st.release
+		defer close(st.done)
+	}
 	b, err := io.ReadAll(src)
 	if err != nil {
 		return blob.SizedRef{}, err
 	}
 	name := br.String()
 	s.mu.Lock()
+	// transient fault: the failAt-th next ReceiveBlob fails once; nothing is stored
+	if s.failAt == 1 {
+		s.failAt = 0
+		s.mu.Unlock()
+		return blob.SizedRef{}, errTransient
+	} else if s.failAt > 1 {
+		s.failAt--
+	}
 	if _, ok := s.token[name]; !ok {
 		s.names = append(s.names, name)
 		s.token[name] = len(s.names)
@@ -478,6 +501,8 @@ func (w *world) quiesce() bool {
 	}
 	return true
 }
+
+var errTransient = errors.New("c11: transient failure of the wrapped store")
 
 var errHang = errors.New("c11: goroutines did not finish")
 
